@@ -18,6 +18,10 @@ CHECKS = {
          "every cell of the (party x protocol point x exit kind x 0-2 extensions) matrix is executed under many seeded schedules; the oracle is the failure table derived from the property statement (status, body provenance, first fault, teardown, recovery); cells enumerated completely, schedules sampled"),
  "C09": ("fault_enumeration", "3 C09", "full-stack deterministic simulation on the fake clock: enumerated trigger x process-behaviour matrix, timestamped supervisor-log oracle",
          "all 227 consistent cells of trigger x runtime behaviour x extension behaviours are executed with tape-drawn budgets, TERM delays around the 30% mark, kill and event latencies and lock-grant orders; the oracle checks order and exact fake-clock instants of Terminate/Kill requests, SHUTDOWN event count/reason/deadline and the return time of the operation; cells enumerated completely, continuous parameters sampled"),
+ "C01": ("exploration", "3 C01", "full-stack deterministic simulation: seeded payload/size/history generator over invocation sequences, byte oracle at the runtime and at the caller",
+         "seeded search over payload classes and sizes up to the limit, client contexts and histories in which earlier invocations succeeded, returned error bodies, timed out, crashed or were oversized; every delivery and every outcome is compared byte for byte, ids must be fresh, ARN/context/deadline exact; sampled"),
+ "C14": ("exploration", "3 C14", "full-stack deterministic simulation: sizes around 6 MiB+100 at every position of an invocation sequence, byte and status oracle",
+         "response and event sizes in a window around the limit (and 0, 1, limit/2) at every position of 2-6 invocation sequences; decides exactness of the limit in both directions, the 413/ResponseSizeTooLarge pair and survival without reset; sampled positions and mixes"),
 }
 
 NA = [
